@@ -113,7 +113,7 @@ def run_task(task):
             p, m = stack.pop()
             tp = time.time()
             c = core.run_path(mod.harness, cfg, prefix=p, prefix_model=m,
-                              trace_functions=(trace_first and first), repo_root=REPO,
+                              trace_functions=True, repo_root=REPO,
                               timeout_ms=getattr(mod, "QUERY_TIMEOUT_MS", core.QUERY_TIMEOUT_MS))
             first = False
             stack.extend(c.pending)
